@@ -22,6 +22,10 @@ func init() {
 			"(\"the same settling period\"). A failed UpdateStatus after a release drops the computed ReprocessAll (fault sequence; noted in DESIGN.md O-1).",
 		Run: runC07,
 		Mutants: []Mutant{
+			{Name: "reload-request-dropped-when-busy", File: "internal/k8s/controllers/service_controller_reload.go",
+				Old: "\tr.Reload <- NewReloadEvent()\n", New: "\tselect {\n\tcase r.Reload <- NewReloadEvent():\n\tdefault:\n\t}\n", Expect: "FALLBACK-POOLS"},
+			{Name: "fallback-skips-pools-without-free-ipv4", File: "internal/allocator/allocator.go",
+				Old: "\t\tif !pool.AutoAssign || pool.ServiceAllocations != nil {\n\t\t\tcontinue\n\t\t}\n", New: "\t\tif !pool.AutoAssign || pool.ServiceAllocations != nil {\n\t\t\tcontinue\n\t\t}\n\t\tif a.CountersForPool(pool.Name).AvailableIPv4 == 0 {\n\t\t\tcontinue\n\t\t}\n", Expect: "FALLBACK-POOLS"},
 			{Name: "pinned-enumeration-stops-at-unusable-pool", File: "internal/allocator/allocator.go",
 				Old: "\t\t\tif !nsPool.AutoAssign || !a.isPoolCompatibleWithService(nsPool, svc) {\n\t\t\t\tcontinue\n",
 				New: "\t\t\tif !nsPool.AutoAssign || !a.isPoolCompatibleWithService(nsPool, svc) {\n\t\t\t\tbreak\n", Expect: "every-pinned-pool-examined"},
@@ -66,6 +70,7 @@ func init() {
 }
 
 func runC07(p *chk.Prog, r *chk.Report) {
+	c07Fallback(p, r)
 	assignCommitsRule(p, r)
 	c07Release(p, r)
 	syncStateRule(p, r)
@@ -686,4 +691,49 @@ func c07BothFamilies(x *chk.R, f *chk.Fn, g *chk.Graph) {
 		}
 	}
 	x.Check("findBestPoolForService:families-are-distinct", pv.Pos(), ok, "", "the first and the second choice family are not IPv4 and IPv6 in some order on every branch ("+why+"): a pool lacking one family counts as complete, pools holding only the other family are never candidates")
+}
+
+// c07Fallback: when no pinned pool serves the Service, every unpinned auto-assign pool is searched, and the reload that
+// reprocesses waiting Services after a release is always delivered.
+func c07Fallback(p *chk.Prog, r *chk.Report) {
+	x := r.Rule("FALLBACK-POOLS", "B path", "in (*Allocator).Allocate the loop over a.pools.ByName hands every pool to the search except those with !AutoAssign or a ServiceAllocations block (no other skip, no early exit); (*ServiceReconciler).forceReload sends on r.Reload on every path, as a plain (blocking) send", 2)
+	f := need(x, p, allocPkg, "Allocator", "Allocate")
+	if f != nil {
+		g := f.Graph()
+		n := 0
+		for _, rs := range f.RangeLoops(func(e ast.Expr) bool { return f.MatchNew("RECV.pools.ByName", e) != nil }) {
+			pool := rangeVal(f, rs)
+			apps := g.Find(func(nd ast.Node) bool {
+				return chk.InBody(rs, nd) && f.IsAssignPat("L", "append(L, P)", chk.H("P", pool))(nd)
+			})
+			if len(apps) != 1 {
+				continue
+			}
+			n++
+			pinnedOrManual := chk.GAnyOf(g.GPat(false, "P.AutoAssign", chk.H("P", pool)), g.GPat(true, "P.ServiceAllocations != nil", chk.H("P", pool)))
+			ok := !loopSkipsWithout(g, rs, func(nd ast.Node) bool { return nd == apps[0].Top }, pinnedOrManual) && !loopLeavesEarly(f, g, rs)
+			x.Check("Allocate:every-unpinned-pool-searched", rs.Pos(), ok, "", "an unpinned auto-assign pool can be left out of the search for a reason other than AutoAssign / ServiceAllocations (a shortcut on its counters, say): a Service for which that pool holds the only admissible address is refused although an assignment exists")
+		}
+		x.Check("Allocate:fallback-loop", f.Pos(), n == 1, "", "no loop collecting the unpinned pools")
+	}
+	fr := need(x, p, ctrlPkg, "ServiceReconciler", "forceReload")
+	if fr != nil {
+		g := fr.Graph()
+		var send *ast.SendStmt
+		inSelect := false
+		ast.Inspect(fr.Body, func(nd ast.Node) bool {
+			if ss, ok := nd.(*ast.SendStmt); ok && fr.MatchNew("RECV.Reload", ss.Chan) != nil {
+				send = ss
+				if _, isComm := p.Parent(ss).(*ast.CommClause); isComm {
+					inSelect = true
+				}
+			}
+			return true
+		})
+		ok := send != nil && !inSelect
+		if ok {
+			ok = !g.MustPass(chk.Site{}, nil, true, func(nd ast.Node) bool { return nd == ast.Node(send) }).Found
+		}
+		x.Check("forceReload:always-delivered", fr.Pos(), ok, "", "the reload request can be dropped (a select with a default, or a path without the send): `would block` only means the receiver is not parked on the unbuffered channel at this instant - the released address is never offered to the Services waiting for it")
+	}
 }
